@@ -1,4 +1,5 @@
 import RPVerif.Lemmas.TmgrSched
+import RPVerif.Lemmas.RRBalance
 
 /-!
 # C12 — Each task is bound to exactly one eligible pilot
@@ -207,5 +208,22 @@ theorem C12_bf_window (c : BFCfg) (s : S) :
 example : (rrRun {} [.work [⟨0, some 7, 1⟩, ⟨1, none, 1⟩], .addPilots [7] [4], .removePilots [7],
                      .addPilots [7] [4], .work [⟨2, none, 1⟩]]).2
     = [.sched 0, .sched 1, .fwd 0 7, .fwd 1 7, .sched 2, .fwd 2 7] := by decide
+
+/-! ## round robin spreads a batch -/
+
+/-- **round robin balance**: for every list of eligible pilots (no duplicates), every stored index
+    (in or beyond the list) and every batch of tasks without a named pilot, the numbers of tasks
+    forwarded to any two eligible pilots differ by at most one, every task of the batch is forwarded,
+    and only to eligible pilots -/
+theorem C12_rr_balance (pids : List Nat) (hn : pids.Nodup) (idx : Nat) (ts : List Task) (P Q : Nat)
+    (hP : P ∈ pids) (hQ : Q ∈ pids) :
+    load P (rrAssign pids idx ts).2 ≤ load Q (rrAssign pids idx ts).2 + 1
+    ∧ (targets (rrAssign pids idx ts).2).length = ts.length
+    ∧ ∀ T ∈ targets (rrAssign pids idx ts).2, T ∈ pids :=
+  ⟨rr_balance pids hn idx ts P Q hP hQ,
+   (rr_targets_eligible pids (List.length_pos_of_mem hP) idx ts).1,
+   (rr_targets_eligible pids (List.length_pos_of_mem hP) idx ts).2⟩
+
+example : targets (rrAssign [5, 7, 9] 2 [⟨0, none, 1⟩, ⟨1, none, 1⟩, ⟨2, none, 1⟩, ⟨3, none, 1⟩]).2 = [9, 5, 7, 9] := by decide
 
 end RPVerif.C12
